@@ -276,7 +276,7 @@ func Package(path string, files []string) (*PkgInfo, error) {
 	return pi, nil
 }
 
-func getNamedImports(gocmd, dir string, pkgs map[string]string) ([]*Import, error) {
+func getNamedImports(gocmd, dir string, pkgs map[string]map[string]bool) ([]*Import, error) {
 	var imports []*Import
 	paths := make([]string, 0, len(pkgs))
 	for pkg := range pkgs {
@@ -284,13 +284,20 @@ func getNamedImports(gocmd, dir string, pkgs map[string]string) ([]*Import, erro
 	}
 	sort.Strings(paths)
 	for _, pkg := range paths {
-		alias := pkgs[pkg]
-		debug.Printf("getting import package %q, alias %q", pkg, alias)
-		imp, err := getImportFrom(gocmd, dir, pkg, alias)
-		if err != nil {
-			return nil, err
+		// a package may be imported under more than one alias
+		aliases := make([]string, 0, len(pkgs[pkg]))
+		for alias := range pkgs[pkg] {
+			aliases = append(aliases, alias)
 		}
-		imports = append(imports, imp)
+		sort.Strings(aliases)
+		for _, alias := range aliases {
+			debug.Printf("getting import package %q, alias %q", pkg, alias)
+			imp, err := getImportFrom(gocmd, dir, pkg, alias)
+			if err != nil {
+				return nil, err
+			}
+			imports = append(imports, imp)
+		}
 	}
 	return imports, nil
 }
@@ -413,7 +420,7 @@ func setNamespaces(pi *PkgInfo) {
 }
 
 func setImports(gocmd, dir string, pi *PkgInfo) error {
-	importNames := map[string]string{}
+	importNames := map[string]map[string]bool{}
 	rootImports := []string{}
 	fnames := make([]string, 0, len(pi.AstPkg.Files))
 	for fname := range pi.AstPkg.Files {
@@ -439,7 +446,10 @@ func setImports(gocmd, dir string, pi *PkgInfo) error {
 				}
 				if alias != "" {
 					debug.Printf("found %s: %s (%s)", importTag, name, alias)
-					importNames[name] = alias
+					if importNames[name] == nil {
+						importNames[name] = map[string]bool{}
+					}
+					importNames[name][alias] = true
 				} else {
 					debug.Printf("found %s: %s", importTag, name)
 					rootImports = append(rootImports, name)
